@@ -55,9 +55,14 @@ func comparesWholeSignature(r *Run, f *core.FuncInfo) (bool, string) {
 				operands = e.Args
 			}
 		}
-		for _, op := range operands {
+		// a field is covered by a comparison whose two sides both select it, from two different signatures
+		// (comparing a value with itself covers nothing)
+		if len(operands) == 2 && core.CanonExpr(c, operands[0]) != core.CanonExpr(c, operands[1]) {
 			for _, fld := range want {
-				if core.Mentions("types.Signature."+fld)(c, op) || core.CallsAny("types.(*Signature).Get"+fld)(c, op) {
+				sel := func(op ast.Expr) bool {
+					return core.Mentions("types.Signature."+fld)(c, op) || core.CallsAny("types.(*Signature).Get"+fld)(c, op)
+				}
+				if sel(operands[0]) && sel(operands[1]) {
 					fields[fld] = true
 				}
 			}
